@@ -37,6 +37,15 @@ theorem C33_split_independent (max : Nat) (s : St) (a b : Bytes) :
       feed max (feed max s a) b = feed max s (a ++ b)) :=
   feed_feed_sim max s a b
 
+/-- **An idle pass changes nothing**: a `parse()` with no new bytes after any receive leaves the
+events, ids, retry and status as they are (and the whole state, while the parser is alive) — also
+when the last receive ended in a CR that may be half of a CR LF. -/
+theorem C33_idle_pass (max : Nat) (s : St) (a : Bytes) :
+    (feed max (feed max s a) []).ev = (feed max s a).ev ∧
+    ((feed max (feed max s a) []).ev.running = true → feed max (feed max s a) [] = feed max s a) := by
+  have h := C33_split_independent max s a []
+  simpa using h
+
 /-- non-vacuity: a CR LF pair cut in two, one event, parser alive, buffers equal -/
 example :
     let a : Bytes := [100, 97, 116, 97, 58, 32, 97, 13]        -- "data: a\r"
